@@ -218,6 +218,9 @@ func NewCoreRun(sch *Schedule) *CoreRun {
 	if b, _ := sch.Cfg["ReadOnly"].(bool); b {
 		c.opt.ReadOnly = true
 	}
+	if m, _ := sch.Cfg["MetaCollection"].(string); m != "" {
+		c.opt.MetaCollection = m // (a rig option: the connector's checkpoints configured into a collection of their own)
+	}
 	if b, _ := sch.Cfg["HookScrapes"].(bool); b {
 		c.opt.HookScrapes = true
 	}
@@ -244,6 +247,13 @@ func (c *CoreRun) setHigh() {
 			}
 		}
 		c.w.SetHigh(vb, uint64(hi))
+		chi := 0
+		for _, x := range c.slog[vb] {
+			if (x.K == "mut" || x.K == "del" || x.K == "exp") && x.Q > chi {
+				chi = x.Q
+			}
+		}
+		c.w.SetCollHigh(vb, uint64(chi))
 	}
 }
 
@@ -397,8 +407,8 @@ func (c *CoreRun) exec(l map[string]any) string {
 			r.Dcp.Start()
 			r.S.Emit(Ev{"ev": "CloseReturn"})
 		})
-	case "LoadRet", "SeqNosRet", "FoLogRet":
-		gate := map[string]string{"LoadRet": "md.Load", "SeqNosRet": "GetVBucketSeqNos", "FoLogRet": "GetFailOverLogs"}[a]
+	case "LoadRet", "SeqNosRet", "SeqNosRetMiss", "FoLogRet":
+		gate := map[string]string{"LoadRet": "md.Load", "SeqNosRet": "GetVBucketSeqNos", "SeqNosRetMiss": "GetVBucketSeqNos", "FoLogRet": "GetFailOverLogs"}[a]
 		th := "main"
 		if c.r.S.Parked()[th] != gate {
 			th = c.parkedLike("lib:" + gate)
@@ -406,8 +416,11 @@ func (c *CoreRun) exec(l map[string]any) string {
 				return "nobody is at " + gate
 			}
 		}
-		if a == "SeqNosRet" {
+		if a == "SeqNosRet" || a == "SeqNosRetMiss" {
 			c.setHigh()
+		}
+		if a == "SeqNosRetMiss" {
+			rel = riga.MissingVb(num(l["vb"]) - 1) // the answer has no entry for this vBucket
 		}
 		if part, _ := l["part"].(bool); part && a == "LoadRet" {
 			rel = "partial"
@@ -498,6 +511,29 @@ func (c *CoreRun) exec(l map[string]any) string {
 		}
 		c.r.S.Emit(Ev{"ev": "Ack", "vb": cx.Vb, "off": cx.Off})
 		cx.C.Ack()
+	case "AckBegin":
+		cx := c.r.Cons.Ctx(num(l["i"]) - 1)
+		if cx == nil {
+			return "no such context"
+		}
+		if _, busy := c.r.S.Parked()["acker"]; busy {
+			return "an acknowledgement is already held"
+		}
+		r := c.r
+		r.S.Emit(Ev{"ev": "AckHeld", "vb": cx.Vb, "off": cx.Off})
+		r.Cons.HoldTrack.Store(true)
+		r.S.Go("acker", func() {
+			cx.C.Ack()
+			r.S.Emit(Ev{"ev": "AckDone", "vb": cx.Vb, "off": cx.Off})
+		})
+		r.S.WaitUntil(stepTimeout, func(p map[string]string, d map[string]bool) bool { return d["acker"] || p["acker"] != "" })
+		r.Cons.HoldTrack.Store(false) // (an acknowledgement that moves nothing never reaches TrackOffset)
+	case "AckMark":
+		if c.r.S.Parked()["acker"] != "track" {
+			return "no acknowledgement is held inside TrackOffset"
+		}
+		c.r.S.Release("acker", nil)
+		c.r.S.WaitUntil(stepTimeout, func(p map[string]string, d map[string]bool) bool { return d["acker"] })
 	case "SaveStart":
 		t := str(l["t"])
 		if _, busy := c.r.S.Parked()[t]; busy {
@@ -508,9 +544,17 @@ func (c *CoreRun) exec(l map[string]any) string {
 			return "no stream"
 		}
 		r := c.r
+		// thread "c" is the consumer committing from its listener: ListenerContext.Commit of the context it was handed last
+		// (the same checkpoint.Save as Stream.Save, reached through the context)
+		save := st.Save
+		if t == "c" && st.IsOpen() {
+			if f := r.Cons.Commit(); f != nil {
+				save = f
+			}
+		}
 		r.S.Go(t, func() {
 			r.S.Emit(Ev{"ev": "SaveCall", "t": t})
-			st.Save()
+			save()
 			r.S.Emit(Ev{"ev": "SaveRet", "t": t})
 		})
 		c.r.S.WaitUntil(stepTimeout, func(p map[string]string, d map[string]bool) bool { return d[t] || p[t] != "" })
@@ -739,7 +783,8 @@ func (c *CoreRun) releaseAll() bool {
 }
 
 func (c *CoreRun) drain() {
-	for i := 0; i < 40 && c.up; i++ {
+	rounds := 0
+	for i := 0; i < 60 && c.up && rounds < 12; i++ {
 		if c.releaseAll() {
 			continue
 		}
@@ -754,6 +799,18 @@ func (c *CoreRun) drain() {
 		c.r.NoteTimer()
 		if !fired {
 			break
+		}
+		rounds++
+	}
+	// every armed rebalance timer was fired `rounds` times over (each firing: the configured delay has elapsed), every request
+	// was answered, nobody announced anything - and a timer is armed again
+	if rounds >= 12 && c.up {
+		for _, t := range c.r.Timers {
+			if t.Stop() {
+				t.Reset(time.Hour)
+				c.r.S.Emit(Ev{"ev": "Stalled", "rounds": rounds})
+				break
+			}
 		}
 	}
 	if st := c.r.Stream(); st != nil && c.up && st.IsOpen() && !c.r.S.IsDone("main") {
@@ -810,11 +867,21 @@ func (c *CoreRun) wellFormed(l map[string]any) bool {
 	case "End":
 		vb := num(l["vb"]) - 1
 		st := c.r.Stream()
-		if st == nil || !st.IsOpen() || !c.live[vb] || str(l["cause"]) == "closed" {
+		if st == nil || !c.live[vb] || str(l["cause"]) == "closed" {
 			return false
 		}
-		for _, g := range c.r.S.Parked() { // nothing of a close / rebalance / re-open is in progress
-			if g == "CloseStream" || g == "rb.prelock" || g == "wait.close" || g == "wait.end" || g == "OpenStream" {
+		// a server may end a stream it has accepted while the session is still opening the others (Open() has not returned and
+		// stream requests are in flight); otherwise nothing of a close / rebalance / re-open is in progress
+		parked := c.r.S.Parked()
+		requests := false
+		for _, g := range parked {
+			requests = requests || g == "OpenStream"
+		}
+		if !st.IsOpen() && !requests {
+			return false // no session
+		}
+		for _, g := range parked {
+			if g == "CloseStream" || g == "rb.prelock" || g == "wait.close" || g == "wait.end" || (g == "OpenStream" && st.IsOpen()) {
 				return false
 			}
 		}
@@ -835,7 +902,7 @@ func afterDivergence(l map[string]any) bool {
 	}
 	switch str(l["a"]) {
 	case "LoadRet", "SeqNosRet", "FoLogRet", "OpenRet", "ReopenRet", "CloseRet", "CloseEmpty", "StoreWrite", "SaveRet", "SaveRemark", "SaveTake",
-		"SaveLock", "SaveAcquire", "ConsRet", "Ack", "TimerFire", "WaitFin", "RbLock", "ScrapeRet", "GateOpen", "StartWind", "Quiesce", "Nop", "Boot":
+		"SaveLock", "SaveAcquire", "ConsRet", "Ack", "AckBegin", "AckMark", "TimerFire", "WaitFin", "RbLock", "ScrapeRet", "GateOpen", "StartWind", "Quiesce", "Nop", "Boot":
 		return true
 	case "RmSwitch":
 		on, _ := l["on"].(bool)
